@@ -290,10 +290,6 @@ Arguments fresh {M}.
 (* 4. histogram: ghost state and invariant                                 *)
 (* ====================================================================== *)
 Notation HM := hist_machine.
-Definition hcall := call HM.
-
-Lemma hstart_inl : forall o : Conc.op HM, exists l, start HM o = inl l.
-Proof. intros [v|]; eexists; reflexivity. Qed.
 
 Definition val (o : hop) : f64 := match o with HObserve v => v | HWrite => pzero end.
 Definition is_obsb (o : hop) : bool := match o with HObserve _ => true | HWrite => false end.
@@ -309,9 +305,19 @@ Definition cooled ph := match ph with PhCool _ => false | _ => true end.
 Definition flipped ph := match ph with Ph0 => false | _ => true end.
 Definition PhM0 := PhM false false false false 0 0.
 
+
+Ltac psplit := repeat match goal with |- _ /\ _ => split end.
+
+(* The development is generic in the machine: any machine over the shared state hsh with operations hop and
+   results hret whose program counters can be VIEWED as histogram program counters (vw).  The histogram machine
+   uses the identity view; the summary machine is viewed as a histogram without buckets (section 7). *)
 Section Hist.
 Variable bnds : list f64.
 Notation n := (length bnds).
+Variables (L : Type) (st : hop -> L + hret) (stp : hsh -> L -> option (hsh * (L + hret))) (lab : L -> list Z).
+Variable vw : L -> hpc.
+Notation GM := (mkMachine hsh L hop hret st stp lab).
+Definition hcall := call GM.
 
 Definition kval (k : hcall) : f64 := val (c_op k).
 Definition kobs (k : hcall) : bool := is_obsb (c_op k).
@@ -329,8 +335,8 @@ Record ghost := mkG {
 Definition gD (g : ghost) (b : bool) := if b then gD1 g else gD0 g.
 
 (* contributions of a thread in flight *)
-Definition tpc (t : thread HM) : option (hop * hpc) :=
-  match t_cur t with Some (o, pc, _) => Some (o, pc) | None => None end.
+Definition tpc (t : thread GM) : option (hop * hpc) :=
+  match t_cur t with Some (o, pc, _) => Some (o, vw pc) | None => None end.
 Definition cA (b : bool) (x : option (hop * hpc)) : Z :=
   match x with
   | Some (_, oBucket _ b' _) | Some (_, oSumLoad _ b') | Some (_, oSumCas _ b' _) | Some (_, oCount b') =>
@@ -348,9 +354,9 @@ Definition cS (b : bool) (x : option (hop * hpc)) : list f64 :=
   | Some (o, oCount b') => if Bool.eqb b b' then [val o] else []
   | _ => []
   end.
-Definition TA b (T : list (thread HM)) := zsum (map (fun t => cA b (tpc t)) T).
-Definition TB b i (T : list (thread HM)) := zsum (map (fun t => cB b i (tpc t)) T).
-Definition TS b (T : list (thread HM)) := concat (map (fun t => cS b (tpc t)) T).
+Definition TA b (T : list (thread GM)) := zsum (map (fun t => cA b (tpc t)) T).
+Definition TB b i (T : list (thread GM)) := zsum (map (fun t => cB b i (tpc t)) T).
+Definition TS b (T : list (thread GM)) := concat (map (fun t => cS b (tpc t)) T).
 
 Definition out_ok (o : hout) (E : list hcall) : Prop :=
   ho_count o = zlen E /\ SumOf (vals E) (ho_sum o) /\ ho_cum o = map (fun j => cntlt (S j) E) (seq 0 n).
@@ -389,8 +395,8 @@ Definition pcinv (hb : bool) (g : ghost) (i : nat) (o : hop) (pc : hpc) (inv : Z
   | wUnlock o' => hold /\ gph g = M4 n n /\ out_ok o' Dc
   end.
 
-Definition tinv (hb : bool) (g : ghost) (time : Z) (i : nat) (t : thread HM) : Prop :=
-  match t_cur t with Some (o, pc, inv) => pcinv hb g i o pc inv /\ inv <= time | None => True end.
+Definition tinv (hb : bool) (g : ghost) (time : Z) (i : nat) (t : thread GM) : Prop :=
+  match t_cur t with Some (o, pc, inv) => pcinv hb g i o (vw pc) inv /\ inv <= time | None => True end.
 
 Definition wr_ok (hs : list hcall) (base : list hcall) (e : hcall * list hcall) : Prop :=
   let (w, S) := e in
@@ -405,16 +411,16 @@ Definition holds (pc : hpc) : bool :=
 Definition base (g : ghost) (hb : bool) := gD g (if flipped (gph g) then negb hb else hb).
 
 (* threads *)
-Record InvT (hb mx : bool) (g : ghost) (T : list (thread HM)) (time : Z) : Prop := mkInvT {
+Record InvT (hb mx : bool) (g : ghost) (T : list (thread GM)) (time : Z) : Prop := mkInvT {
   i_thr : forall i t, nth_error T i = Some t -> tinv hb g time i t;
   i_own : match gown g with
           | None => mx = false /\ gph g = Ph0
           | Some i => mx = true /\ exists t o pc inv, nth_error T i = Some t /\
-                        t_cur t = Some (o, pc, inv) /\ holds pc = true
+                        t_cur t = Some (o, pc, inv) /\ holds (vw pc) = true
           end }.
 
 (* shared state *)
-Record InvS (h : hsh) (g : ghost) (T : list (thread HM)) : Prop := mkInvS {
+Record InvS (h : hsh) (g : ghost) (T : list (thread GM)) : Prop := mkInvS {
   i_bnds : h_bnds h = bnds;
   i_tick : tickets h = zlen (gD0 g) + TA false T + zlen (gD1 g) + TA true T;
   i_cnth : s_cnt (hget h (hot h)) = zlen (gD g (hot h)) + (if pmc (gph g) then zlen (gD g (negb (hot h))) else 0);
@@ -443,9 +449,9 @@ Record InvH (hs : list hcall) (time : Z) (g : ghost) (hb : bool) : Prop := mkInv
   i_rt : gown g <> None -> forall k, In k hs -> kobs k = true -> c_res k <= ginv g -> In k (base g hb);
   i_nodup : NoDup hs }.
 
-Definition Inv3 (h : hsh) (T : list (thread HM)) (time : Z) (hs : list hcall) (g : ghost) : Prop :=
+Definition Inv3 (h : hsh) (T : list (thread GM)) (time : Z) (hs : list hcall) (g : ghost) : Prop :=
   InvT (hot h) (mtx h) g T time /\ InvS h g T /\ InvH hs time g (hot h).
-Definition Inv (c : config HM) (g : ghost) : Prop := Inv3 (sh c) (thr c) (now c) (hist c) g.
+Definition Inv (c : config GM) (g : ghost) : Prop := Inv3 (sh c) (thr c) (now c) (hist c) g.
 
 (* ---- counting lemmas ---- *)
 Lemma cnteq_app j E1 E2 : cnteq j (E1 ++ E2) = cnteq j E1 + cnteq j E2.
@@ -468,9 +474,9 @@ Proof. apply map_app. Qed.
 Lemma cA_nonneg b x : 0 <= cA b x.
 Proof. destruct x as [[o []]|]; cbn [cA]; try lia; destruct (Bool.eqb _ _); lia. Qed.
 
-Lemma TA_mem b (T : list (thread HM)) i t o pc inv : nth_error T i = Some t -> t_cur t = Some (o, pc, inv) -> cA b (Some (o, pc)) <= TA b T.
+Lemma TA_mem b (T : list (thread GM)) i t o pc inv : nth_error T i = Some t -> t_cur t = Some (o, pc, inv) -> cA b (Some (o, vw pc)) <= TA b T.
 Proof.
-  intros Ht Hc. assert (Hp : tpc t = Some (o, pc)) by (unfold tpc; rewrite Hc; reflexivity). rewrite <- Hp.
+  intros Ht Hc. assert (Hp : tpc t = Some (o, vw pc)) by (unfold tpc; rewrite Hc; reflexivity). rewrite <- Hp.
   apply (zsum_ge_nth (fun t => cA b (tpc t))) with i; [intros; apply cA_nonneg|exact Ht].
 Qed.
 
@@ -485,7 +491,7 @@ Proof.
 Qed.
 
 Section SetNth.
-Variables (T : list (thread HM)) (i : nat) (t t' : thread HM).
+Variables (T : list (thread GM)) (i : nat) (t t' : thread GM).
 Hypothesis Ht : nth_error T i = Some t.
 Lemma TA_set b : TA b (set_nth T i t') = TA b T - cA b (tpc t) + cA b (tpc t').
 Proof. unfold TA. apply (zsum_set_nth (fun t => cA b (tpc t))). exact Ht. Qed.
@@ -496,19 +502,6 @@ Proof. unfold TS. apply (concat_set_nth (fun t => cS b (tpc t))). exact Ht. Qed.
 Lemma TS_same b : cS b (tpc t') = cS b (tpc t) -> TS b (set_nth T i t') = TS b T.
 Proof. intros E. unfold TS. f_equal. apply (map_set_nth_same (fun t => cS b (tpc t)) _ _ t); assumption. Qed.
 End SetNth.
-
-(* a thread as left by `advance` contributes nothing and satisfies its local invariant *)
-Lemma fresh_tpc time (t : thread HM) : fresh time t ->
-  (forall b, cA b (tpc t) = 0) /\ (forall b j, cB b j (tpc t) = 0) /\ (forall b, cS b (tpc t) = []).
-Proof.
-  unfold fresh, tpc. destruct (t_cur t) as [[[o pc] inv]|]; [|repeat split].
-  intros [_ Hs]. destruct o; cbn in Hs; inversion Hs; subst; repeat split.
-Qed.
-Lemma fresh_tinv hb g time i (t : thread HM) : fresh time t -> tinv hb g time i t.
-Proof.
-  unfold fresh, tinv. destruct (t_cur t) as [[[o pc] inv]|]; [|auto].
-  intros [-> Hs]. split; [|lia]. destruct o; cbn in Hs; inversion Hs; subst; reflexivity.
-Qed.
 
 Lemma tinv_mono hb g time time' i t : time <= time' -> tinv hb g time i t -> tinv hb g time' i t.
 Proof. unfold tinv. destruct (t_cur t) as [[[o pc] inv]|]; [|auto]. intros H [H1 H2]. split; [assumption|lia]. Qed.
@@ -524,7 +517,7 @@ Lemma tinv_other hb g hb' g' time i j t :
   gown g = Some i -> j <> i -> tinv hb g time j t -> tinv hb' g' time j t.
 Proof.
   unfold tinv. destruct (t_cur t) as [[[o pc] inv]|]; [|auto]. intros Ho Hne [H1 H2]. split; [|assumption].
-  destruct (holds pc) eqn:E; [|eapply pcinv_nohold; eauto].
+  destruct (holds (vw pc)) eqn:E; [|eapply pcinv_nohold; eauto].
   destruct (pcinv_holds _ _ _ _ _ _ H1 E) as (_ & H & _). congruence.
 Qed.
 
@@ -582,7 +575,7 @@ Qed.
 (* thread i steps; it does not hold the lock before or after *)
 Lemma InvT_obs hb mx g g' T time i t t' :
   InvT hb mx g T time -> nth_error T i = Some t ->
-  (forall o pc inv, t_cur t = Some (o, pc, inv) -> holds pc = false) ->
+  (forall o pc inv, t_cur t = Some (o, pc, inv) -> holds (vw pc) = false) ->
   gown g' = gown g -> ginv g' = ginv g -> gph g' = gph g ->
   (cooled (gph g) = true -> gD g' (negb hb) = gD g (negb hb)) ->
   tinv hb g' (time + 1) i t' ->
@@ -601,10 +594,10 @@ Qed.
 
 (* thread i holds the lock before and after the step *)
 Lemma InvT_hold hb hb' mx g g' T time i t o pc inv o' pc' inv' todo idx :
-  InvT hb mx g T time -> nth_error T i = Some t -> t_cur t = Some (o, pc, inv) -> holds pc = true ->
-  gown g' = gown g -> holds pc' = true ->
-  pcinv hb' g' i o' pc' inv' -> inv' <= time ->
-  InvT hb' mx g' (set_nth T i (mkThread HM todo (Some (o', pc', inv')) idx)) (time + 1).
+  InvT hb mx g T time -> nth_error T i = Some t -> t_cur t = Some (o, pc, inv) -> holds (vw pc) = true ->
+  gown g' = gown g -> holds (vw pc') = true ->
+  pcinv hb' g' i o' (vw pc') inv' -> inv' <= time ->
+  InvT hb' mx g' (set_nth T i (mkThread GM todo (Some (o', pc', inv')) idx)) (time + 1).
 Proof.
   intros [Hthr Hown] Ht Hc Hh E1 Hh' Hnew Hinv.
   pose proof (Hthr i t Ht) as Hi. unfold tinv in Hi. rewrite Hc in Hi. destruct Hi as [Hi _].
@@ -615,42 +608,6 @@ Proof.
     + apply tinv_mono with time; [lia|]. eapply tinv_other; eauto.
   - rewrite E1, Hg. rewrite Hg in Hown. destruct Hown as [Hm _]. split; [assumption|].
     eexists _, o', pc', inv'. rewrite (nth_error_set_nth_eq _ _ _ _ Ht). cbn [t_cur]. auto.
-Qed.
-
-(* ---- initial configuration ---- *)
-Definition g0 : ghost := mkG [] [] [] None 0 Ph0.
-
-Lemma fresh_T0 time (T : list (thread HM)) : Forall (fresh time) T ->
-  (forall b, TA b T = 0) /\ (forall b j, TB b j T = 0) /\ (forall b, TS b T = []).
-Proof.
-  intros HF. rewrite Forall_forall in HF.
-  repeat split; intros; [apply zsum_all_zero|apply zsum_all_zero|apply concat_all_nil]; intros t Ht;
-    apply (fresh_tpc time t (HF t Ht)).
-Qed.
-
-Lemma Inv_init progs : Inv (init_config HM (hinit bnds) progs) g0.
-Proof.
-  destruct (init_fresh HM hstart_inl (hinit bnds) progs) as [HF Hh].
-  destruct (fresh_T0 0 _ HF) as (HA & HB & HS).
-  unfold Inv, Inv3. rewrite Hh. set (T := thr (init_config HM (hinit bnds) progs)) in *.
-  change (sh (init_config HM (hinit bnds) progs)) with (hinit bnds).
-  change (now (init_config HM (hinit bnds) progs)) with 0.
-  split; [|split].
-  - constructor.
-    + intros i t Hi. apply fresh_tinv. eapply Forall_forall; [exact HF|]. eapply nth_error_In; eauto.
-    + cbn. auto.
-  - constructor; cbn [hinit hget hot negb gD g0 gph gD0 gD1 set0 set1 cset0 s_bk s_sum s_cnt s_zero tickets h_bnds
-                     pmb pzb pms pzs pmc pzc vals map app zlen length];
-      try (intros; rewrite ?HA, ?HB, ?HS, ?nthZ_repeat0; first [reflexivity|discriminate|constructor]).
-    all: destruct b; cbn [hinit hget set0 set1 cset0 s_bk s_zero]; rewrite ?repeat_length; reflexivity.
-  - constructor; cbn [g0 gW gD0 gD1 gown app filter map].
-    + intros k [].
-    + constructor.
-    + reflexivity.
-    + constructor.
-    + constructor.
-    + intros H. exfalso. apply H. reflexivity.
-    + constructor.
 Qed.
 
 (* ====================================================================== *)
@@ -677,19 +634,19 @@ Proof. destruct pc; cbn [holds]; intros H; try discriminate H; repeat split. Qed
 (* the lock holder executes a step that keeps the lock, the hot bit and the ghost lists *)
 Lemma step_hold h h' T nw hs g g' i t o pc pc' inv :
   Inv3 h T nw hs g -> nth_error T i = Some t -> t_cur t = Some (o, pc, inv) ->
-  holds pc = true -> holds pc' = true -> hot h' = hot h -> mtx h' = mtx h ->
+  holds (vw pc) = true -> holds (vw pc') = true -> hot h' = hot h -> mtx h' = mtx h ->
   gD0 g' = gD0 g -> gD1 g' = gD1 g -> gW g' = gW g -> gown g' = gown g -> ginv g' = ginv g ->
   flipped (gph g') = flipped (gph g) ->
-  pcinv (hot h) g' i o pc' inv -> InvS h' g' T ->
-  Inv3 h' (set_nth T i (mkThread HM (t_todo t) (Some (o, pc', inv)) (t_idx t))) (nw + 1) hs g'.
+  pcinv (hot h) g' i o (vw pc') inv -> InvS h' g' T ->
+  Inv3 h' (set_nth T i (mkThread GM (t_todo t) (Some (o, pc', inv)) (t_idx t))) (nw + 1) hs g'.
 Proof.
   intros (HT & HS & HH) Ht Hc Hh Hh' Ehot Emtx E0 E1 EW Eo Ei Ef Hpc HS'.
   pose proof (i_thr _ _ _ _ _ HT i t Ht) as Hi. unfold tinv in Hi. rewrite Hc in Hi. destruct Hi as [_ Hinv].
   unfold Inv3. rewrite Ehot, Emtx. split; [|split].
   - eapply InvT_hold; eauto.
-  - destruct (holds_contrib o pc Hh) as (A1 & B1 & S1). destruct (holds_contrib o pc' Hh') as (A2 & B2 & S2).
-    assert (Hp : tpc t = Some (o, pc)) by (unfold tpc; rewrite Hc; reflexivity).
-    destruct (T_same T i t (mkThread HM (t_todo t) (Some (o, pc', inv)) (t_idx t)) Ht) as (HA & HB & HS2);
+  - destruct (holds_contrib o (vw pc) Hh) as (A1 & B1 & S1). destruct (holds_contrib o (vw pc') Hh') as (A2 & B2 & S2).
+    assert (Hp : tpc t = Some (o, vw pc)) by (unfold tpc; rewrite Hc; reflexivity).
+    destruct (T_same T i t (mkThread GM (t_todo t) (Some (o, pc', inv)) (t_idx t)) Ht) as (HA & HB & HS2);
       try (intros; rewrite Hp; unfold tpc; cbn [t_cur]; rewrite ?A1, ?A2, ?B1, ?B2, ?S1, ?S2; reflexivity).
     eapply InvS_T; [..|exact HS']; intros; auto.
   - apply InvH_time with nw; [lia|]. eapply InvH_ghost; eauto.
@@ -698,11 +655,11 @@ Qed.
 (* a thread that does not hold the lock executes a step changing nothing but its own pc (same contributions) *)
 Lemma step_quiet h T nw hs g i t o pc pc' inv :
   Inv3 h T nw hs g -> nth_error T i = Some t -> t_cur t = Some (o, pc, inv) ->
-  holds pc = false ->
-  (forall b, cA b (Some (o, pc')) = cA b (Some (o, pc))) -> (forall b j, cB b j (Some (o, pc')) = cB b j (Some (o, pc))) ->
-  (forall b, cS b (Some (o, pc')) = cS b (Some (o, pc))) ->
-  pcinv (hot h) g i o pc' inv ->
-  Inv3 h (set_nth T i (mkThread HM (t_todo t) (Some (o, pc', inv)) (t_idx t))) (nw + 1) hs g.
+  holds (vw pc) = false ->
+  (forall b, cA b (Some (o, vw pc')) = cA b (Some (o, vw pc))) -> (forall b j, cB b j (Some (o, vw pc')) = cB b j (Some (o, vw pc))) ->
+  (forall b, cS b (Some (o, vw pc')) = cS b (Some (o, vw pc))) ->
+  pcinv (hot h) g i o (vw pc') inv ->
+  Inv3 h (set_nth T i (mkThread GM (t_todo t) (Some (o, pc', inv)) (t_idx t))) (nw + 1) hs g.
 Proof.
   intros (HT & HS & HH) Ht Hc Hh EA EB ES Hpc.
   pose proof (i_thr _ _ _ _ _ HT i t Ht) as Hi. unfold tinv in Hi. rewrite Hc in Hi. destruct Hi as [_ Hinv].
@@ -710,8 +667,8 @@ Proof.
   - eapply InvT_obs; eauto.
     + intros o1 pc1 inv1 H1. rewrite Hc in H1. inversion H1; subst. assumption.
     + unfold tinv. cbn [t_cur]. split; [assumption|lia].
-  - assert (Hp : tpc t = Some (o, pc)) by (unfold tpc; rewrite Hc; reflexivity).
-    destruct (T_same T i t (mkThread HM (t_todo t) (Some (o, pc', inv)) (t_idx t)) Ht) as (HA & HB & HS2);
+  - assert (Hp : tpc t = Some (o, vw pc)) by (unfold tpc; rewrite Hc; reflexivity).
+    destruct (T_same T i t (mkThread GM (t_todo t) (Some (o, pc', inv)) (t_idx t)) Ht) as (HA & HB & HS2);
       try (intros; rewrite Hp; unfold tpc; cbn [t_cur]; auto).
     eapply InvS_T; [..|exact HS]; intros; auto.
   - apply InvH_time with nw; [lia|assumption].
@@ -719,21 +676,21 @@ Qed.
 
 Lemma T_step T i t o pc inv x : nth_error T i = Some t -> t_cur t = Some (o, pc, inv) ->
   forall t', tpc t' = x ->
-  (forall b, TA b (set_nth T i t') = TA b T - cA b (Some (o, pc)) + cA b x) /\
-  (forall b j, TB b j (set_nth T i t') = TB b j T - cB b j (Some (o, pc)) + cB b j x) /\
-  (forall b, Permutation (cS b (Some (o, pc)) ++ TS b (set_nth T i t')) (cS b x ++ TS b T)).
+  (forall b, TA b (set_nth T i t') = TA b T - cA b (Some (o, vw pc)) + cA b x) /\
+  (forall b j, TB b j (set_nth T i t') = TB b j T - cB b j (Some (o, vw pc)) + cB b j x) /\
+  (forall b, Permutation (cS b (Some (o, vw pc)) ++ TS b (set_nth T i t')) (cS b x ++ TS b T)).
 Proof.
-  intros Ht Hc t' Hx. assert (Hp : tpc t = Some (o, pc)) by (unfold tpc; rewrite Hc; reflexivity).
+  intros Ht Hc t' Hx. assert (Hp : tpc t = Some (o, vw pc)) by (unfold tpc; rewrite Hc; reflexivity).
   rewrite <- Hp, <- Hx. repeat split; intros; [apply TA_set|apply TB_set|apply TS_set]; assumption.
 Qed.
 
 (* an observer step that keeps the ghost state *)
 Lemma step_obs h h' T nw hs g i t o pc pc' inv :
   Inv3 h T nw hs g -> nth_error T i = Some t -> t_cur t = Some (o, pc, inv) ->
-  holds pc = false -> hot h' = hot h -> mtx h' = mtx h ->
-  pcinv (hot h) g i o pc' inv ->
-  InvS h' g (set_nth T i (mkThread HM (t_todo t) (Some (o, pc', inv)) (t_idx t))) ->
-  Inv3 h' (set_nth T i (mkThread HM (t_todo t) (Some (o, pc', inv)) (t_idx t))) (nw + 1) hs g.
+  holds (vw pc) = false -> hot h' = hot h -> mtx h' = mtx h ->
+  pcinv (hot h) g i o (vw pc') inv ->
+  InvS h' g (set_nth T i (mkThread GM (t_todo t) (Some (o, pc', inv)) (t_idx t))) ->
+  Inv3 h' (set_nth T i (mkThread GM (t_todo t) (Some (o, pc', inv)) (t_idx t))) (nw + 1) hs g.
 Proof.
   intros (HT & HS & HH) Ht Hc Hh Ehot Emtx Hpc HS'.
   pose proof (i_thr _ _ _ _ _ HT i t Ht) as Hi. unfold tinv in Hi. rewrite Hc in Hi. destruct Hi as [_ Hinv].
@@ -750,40 +707,6 @@ Proof.
   intros HS Hc. pose proof (i_cooled _ _ _ HS Hc) as HA. destruct (TA_zero _ _ HA) as [HB HS']. auto.
 Qed.
 
-Ltac psplit := repeat match goal with |- _ /\ _ => split end.
-Ltac hold_step Hph :=
-  eapply step_hold; eauto;
-  try solve [reflexivity | apply hot_hput | apply mtx_hput | cbn [set_ph gph]; rewrite Hph; reflexivity].
-Ltac simS := cbn [unlock_g add_D negb hget hput hot tickets set0 set1 mtx h_bnds s_sum s_cnt s_bk s_zero gD set_ph gD0 gD1 gph gW gown ginv
-                    pmc pzc pms pzs pmb pzb PhM0 cooled flipped].
-Ltac simSall := cbn [unlock_g add_D negb hget hput hot tickets set0 set1 mtx h_bnds s_sum s_cnt s_bk s_zero gD set_ph gD0 gD1 gph gW gown ginv
-                    pmc pzc pms pzs pmb pzb PhM0 cooled flipped] in *.
-Ltac prepS HS Hph h :=
-  destruct HS as [B1 TK CH CC BH BC SH SC ZR FR CD CL];
-  pose proof (ZR true) as [ZR1 ZL1]; pose proof (ZR false) as [ZR0 ZL0]; clear ZR;
-  rewrite Hph in *; destruct h as [bn hb tk s0 s1 mx]; cbn [hot] in *.
-Ltac prepSc HS Hph h :=
-  destruct (cooled_facts _ _ _ HS) as (A0 & B0 & S0); [rewrite Hph; reflexivity|]; prepS HS Hph h.
-Ltac triv :=
-  try assumption; try lia; try (intros; discriminate); try (intros [|]; simS; rewrite ?upd_nth_length; split; first [lia | assumption]; fail); try (intros; auto; fail).
-Ltac bcases :=
-  repeat match goal with
-  | |- context [Nat.ltb ?a ?b] => destruct (Nat.ltb_spec a b)
-  | |- context [Nat.eqb ?a ?b] => destruct (Nat.eqb_spec a b)
-  | H : context [Nat.ltb ?a ?b] |- _ => destruct (Nat.ltb_spec a b)
-  | H : context [Nat.eqb ?a ?b] |- _ => destruct (Nat.eqb_spec a b)
-  end; cbn [andb orb] in *; subst; try lia.
-Ltac bk BH := let j := fresh "j" in let Hj := fresh "Hj" in
-  intros j Hj; rewrite ?nthZ_upd_nth; specialize (BH j Hj); try match goal with Hz : forall j : nat, TB _ j _ = 0 |- _ => rewrite ?Hz in * end; bcases.
-Ltac prepO HS h ES :=
-  destruct HS as [B1 TK CH CC BH BC SH SC ZR FR CD CL];
-  pose proof (ZR true) as [ZR1 ZL1]; pose proof (ZR false) as [ZR0 ZL0]; clear ZR;
-  pose proof (ES true) as ES1; pose proof (ES false) as ES0;
-  destruct h as [bn hb tk s0 s1 mx]; cbn [hot] in *.
-Ltac bko BH BC EB := let j := fresh "j" in let Hj := fresh "Hj" in
-  intros j Hj; rewrite ?nthZ_upd_nth, ?EB; cbn [cB Bool.eqb andb val]; unfold bix in *;
-  specialize (BH j Hj); specialize (BC j Hj); bcases.
-Ltac hold_same g := exists g; eapply step_hold; eauto; try reflexivity.
 
 (* ---- completion of an Observe: the call record joins the ghost list of its set ---- *)
 Lemma gD_add_same g b k : gD (add_D g b k) b = gD g b ++ [k].
@@ -838,7 +761,7 @@ Qed.
 Lemma tinv_none hb g hb' g' time j t : gown g = None -> tinv hb g time j t -> tinv hb' g' time j t.
 Proof.
   unfold tinv. destruct (t_cur t) as [[[o pc] inv]|]; [|auto]. intros Ho [H1 H2]. split; [|assumption].
-  destruct (holds pc) eqn:E; [|eapply pcinv_nohold; eauto].
+  destruct (holds (vw pc)) eqn:E; [|eapply pcinv_nohold; eauto].
   destruct (pcinv_holds _ _ _ _ _ _ H1 E) as (_ & H & _). congruence.
 Qed.
 
@@ -896,10 +819,464 @@ Proof.
   rewrite Hc in Hthr. destruct Hthr as [Hp Hi]. destruct (pcinv_holds _ _ _ _ _ _ Hp Hh) as (_ & _ & E). lia.
 Qed.
 
-Lemma Inv_step c g tid c' : Inv c g -> sched_step HM c tid = Some c' -> exists g', Inv c' g'.
+
+(* ---- fresh threads and the initial configuration ---- *)
+Hypothesis st_vw : forall o, exists l, st o = inl l /\ vw l = match o with HObserve v => oTicket v | HWrite => wLock end.
+
+
+Lemma gstart_inl : forall o : Conc.op GM, exists l, start GM o = inl l.
+Proof. intros o. destruct (st_vw o) as (l & Hl & _). exists l. exact Hl. Qed.
+
+
+(* a thread as left by `advance` contributes nothing and satisfies its local invariant *)
+Lemma fresh_tpc time (t : thread GM) : fresh time t ->
+  (forall b, cA b (tpc t) = 0) /\ (forall b j, cB b j (tpc t) = 0) /\ (forall b, cS b (tpc t) = []).
 Proof.
-  intros HI Hstep.
-  destruct (sched_step_cases HM hstart_inl _ _ _ Hstep) as (t & o & pc & inv & h' & nxt & Ht & Hc & Hs & Hsh & Hnow & Hrest).
+  unfold fresh, tpc. destruct (t_cur t) as [[[o pc] inv]|]; [|repeat split].
+  intros [_ Hs]. destruct (st_vw o) as (l & Hl & Hv). cbn [start] in Hs. rewrite Hl in Hs. inversion Hs; subst l.
+  rewrite Hv. destruct o; repeat split.
+Qed.
+Lemma fresh_tinv hb g time i (t : thread GM) : fresh time t -> tinv hb g time i t.
+Proof.
+  unfold fresh, tinv. destruct (t_cur t) as [[[o pc] inv]|]; [|auto].
+  intros [-> Hs]. split; [|lia]. destruct (st_vw o) as (l & Hl & Hv). cbn [start] in Hs. rewrite Hl in Hs. inversion Hs; subst l.
+  rewrite Hv. destruct o; reflexivity.
+Qed.
+
+(* ---- initial configuration ---- *)
+Definition g0 : ghost := mkG [] [] [] None 0 Ph0.
+
+Lemma fresh_T0 time (T : list (thread GM)) : Forall (fresh time) T ->
+  (forall b, TA b T = 0) /\ (forall b j, TB b j T = 0) /\ (forall b, TS b T = []).
+Proof.
+  intros HF. rewrite Forall_forall in HF.
+  repeat split; intros; [apply zsum_all_zero|apply zsum_all_zero|apply concat_all_nil]; intros t Ht;
+    apply (fresh_tpc time t (HF t Ht)).
+Qed.
+
+Lemma Inv_init progs : Inv (init_config GM (hinit bnds) progs) g0.
+Proof.
+  destruct (init_fresh GM gstart_inl (hinit bnds) progs) as [HF Hh].
+  destruct (fresh_T0 0 _ HF) as (HA & HB & HS).
+  unfold Inv, Inv3. rewrite Hh. set (T := thr (init_config GM (hinit bnds) progs)) in *.
+  change (sh (init_config GM (hinit bnds) progs)) with (hinit bnds).
+  change (now (init_config GM (hinit bnds) progs)) with 0.
+  split; [|split].
+  - constructor.
+    + intros i t Hi. apply fresh_tinv. eapply Forall_forall; [exact HF|]. eapply nth_error_In; eauto.
+    + cbn. auto.
+  - constructor; cbn [hinit hget hot negb gD g0 gph gD0 gD1 set0 set1 cset0 s_bk s_sum s_cnt s_zero tickets h_bnds
+                     pmb pzb pms pzs pmc pzc vals map app zlen length];
+      try (intros; rewrite ?HA, ?HB, ?HS, ?nthZ_repeat0; first [reflexivity|discriminate|constructor]).
+    all: destruct b; cbn [hinit hget set0 set1 cset0 s_bk s_zero]; rewrite ?repeat_length; reflexivity.
+  - constructor; cbn [g0 gW gD0 gD1 gown app filter map].
+    + intros k [].
+    + constructor.
+    + reflexivity.
+    + constructor.
+    + constructor.
+    + intros H. exfalso. apply H. reflexivity.
+    + constructor.
+Qed.
+
+
+(* preservation by one step is proved per machine (after this section) *)
+Hypothesis Inv_step_H : forall c g tid c', Inv c g -> sched_step GM c tid = Some c' -> exists g', Inv c' g'.
+(* the only blocking operation is Mutex.Lock on a held mutex *)
+Hypothesis enabled_H : forall h pc, stp h pc = None -> vw pc = wLock /\ mtx h = true.
+
+Lemma Inv_reachable progs sched :
+  exists g, Inv (run_sched GM (init_config GM (hinit bnds) progs) sched) g.
+Proof.
+  apply (run_sched_ind GM (fun c => exists g, Inv c g)).
+  - intros c tid c' [g Hg] Hs. eapply Inv_step_H; eauto.
+  - exists g0. apply Inv_init.
+Qed.
+
+
+(* ====================================================================== *)
+(* 6. theorems (histogram)                                                 *)
+(* ====================================================================== *)
+
+(* o is the exact aggregate of the observation values Mo *)
+Definition consistent (bounds : list f64) (o : hout) (Mo : list f64) : Prop :=
+  ho_count o = Z.of_nat (length Mo) /\ ho_cum o = map (fun b => count_le Mo b) bounds /\ SumOf Mo (ho_sum o).
+
+(* S is a set of completed Observe calls of the history explaining the Write call w in real time *)
+Definition snapshot_of (bounds : list f64) (hs : list hcall) (w : hcall) (S : list hcall) : Prop :=
+  exists o, c_ret w = HOut o /\ consistent bnds o (vals S) /\ NoDup S /\
+    (forall k, In k S -> In k hs /\ kobs k = true /\ c_inv k < c_res w) /\
+    (forall k, In k hs -> kobs k = true -> c_res k <= c_inv w -> In k S).
+
+Lemma map_nth_seq {A B} (d : A) (f : A -> B) (l : list A) :
+  map f l = map (fun j => f (nth j l d)) (seq 0 (length l)).
+Proof.
+  induction l as [|a r IH]; [reflexivity|]. cbn [length seq map nth]. f_equal.
+  rewrite <- seq_shift, map_map. exact IH.
+Qed.
+
+Lemma filter_map_length {A B} (g : A -> B) (p : B -> bool) (l : list A) :
+  length (filter (fun x => p (g x)) l) = length (filter p (map g l)).
+Proof. induction l as [|a r IH]; [reflexivity|]. cbn [filter map]. destruct (p (g a)); cbn [length]; auto. Qed.
+
+Lemma cum_le E : strictly_increasing_b bnds = true ->
+  map (fun j => cntlt (S j) E) (seq 0 (length bnds)) = map (fun b => count_le (vals E) b) bnds.
+Proof.
+  intros Hsi. rewrite (map_nth_seq fnan (fun b => count_le (vals E) b) bnds).
+  apply map_ext_in. intros j Hj. apply in_seq in Hj.
+  unfold cntlt, count_le, zlen, vals. f_equal. rewrite <- filter_map_length. f_equal.
+  apply filter_ext. intros k. unfold bix. rewrite (find_bucket_spec_split bnds _ Hsi), Nat2Z.id.
+  destruct (Nat.ltb_spec (split (kval k) bnds) (S j)) as [Hlt|Hge]; symmetry.
+  - apply split_nth_ge; [assumption|lia|lia].
+  - apply split_nth_lt; [assumption|lia].
+Qed.
+
+Lemma out_ok_consistent o E : strictly_increasing_b bnds = true -> out_ok o E -> consistent bnds o (vals E).
+Proof.
+  intros Hsi (H1 & H2 & H3). unfold consistent. psplit.
+  - rewrite H1. unfold zlen, vals. rewrite map_length. reflexivity.
+  - rewrite H3. apply cum_le. assumption.
+  - assumption.
+Qed.
+
+Lemma wr_ok_snapshot hs bs e : strictly_increasing_b bnds = true ->
+  wr_ok hs bs e -> snapshot_of bnds hs (fst e) (snd e).
+Proof.
+  destruct e as [w S]. cbn [wr_ok fst snd]. intros Hsi (o & H1 & H2 & H3 & H4 & H5 & H6).
+  exists o. psplit; auto. apply out_ok_consistent; assumption.
+Qed.
+
+Lemma ss_nth {A} (R : A -> A -> Prop) (h : list A) : StronglySorted R h ->
+  forall i j a b, nth_error h i = Some a -> nth_error h j = Some b -> (i < j)%nat -> R a b.
+Proof.
+  induction 1 as [|x r HS IH HF]; intros i j a b Hi Hj Hlt.
+  - destruct i; discriminate.
+  - destruct j as [|j]; [lia|]. destruct i as [|i]; cbn [nth_error] in *.
+    + inversion Hi; subst. rewrite Forall_forall in HF. apply HF. eapply nth_error_In; eauto.
+    + eapply IH; eauto. lia.
+Qed.
+
+Section Thm.
+Variables (progs : list (list hop)) (sched : list Z).
+Let c := run_sched GM (init_config GM (hinit bnds) progs) sched.
+
+(* T3 (first half) with T1/T2 for every Write: the Writes of the history, in completion order, are explained by an
+   increasing chain of sets of completed Observe calls *)
+Lemma scrapes_monotone_lemma : strictly_increasing_b bnds = true ->
+  exists snap : list (hcall * list hcall),
+    map fst snap = filter (fun k => negb (kobs k)) (Conc.hist c) /\
+    Forall (fun e => snapshot_of bnds (Conc.hist c) (fst e) (snd e)) snap /\
+    (forall i j e1 e2, (i < j)%nat -> nth_error snap i = Some e1 -> nth_error snap j = Some e2 ->
+       incl (snd e1) (snd e2)).
+Proof.
+  intros Hsi. destruct (Inv_reachable progs sched) as [g (HT & HS & HH)]. fold c in HT, HS, HH.
+  exists (gW g). psplit.
+  - apply (i_wr _ _ _ _ HH).
+  - eapply Forall_impl; [|apply (i_wrok _ _ _ _ HH)]. intros e He. eapply wr_ok_snapshot; eauto.
+  - intros i j e1 e2 Hlt H1 H2. exact (ss_nth _ _ (i_mono _ _ _ _ HH) i j e1 e2 H1 H2 Hlt).
+Qed.
+
+(* T1 + T2 *)
+Lemma scrape_real_time_lemma : strictly_increasing_b bnds = true ->
+  forall w o, In w (Conc.hist c) -> c_ret w = HOut o -> exists S, snapshot_of bnds (Conc.hist c) w S.
+Proof.
+  intros Hsi w o Hw Hr. destruct (Inv_reachable progs sched) as [g (HT & HS & HH)]. fold c in HT, HS, HH.
+  assert (Hk : kobs w = false).
+  { destruct (kobs w) eqn:E; [|reflexivity]. destruct (i_time _ _ _ _ HH w Hw) as [_ H]. rewrite (H E) in Hr. discriminate. }
+  assert (Hin : In w (map fst (gW g))).
+  { rewrite (i_wr _ _ _ _ HH). apply filter_In. rewrite Hk. auto. }
+  apply in_map_iff in Hin. destruct Hin as ([w' S] & <- & He). exists S.
+  pose proof (i_wrok _ _ _ _ HH) as WOK. rewrite Forall_forall in WOK.
+  exact (wr_ok_snapshot _ _ _ Hsi (WOK _ He)).
+Qed.
+
+Lemma scrape_consistent_lemma : strictly_increasing_b bnds = true ->
+  forall w o, In w (Conc.hist c) -> c_ret w = HOut o -> exists Mo : list f64, consistent bnds o Mo.
+Proof.
+  intros Hsi w o Hw Hr. destruct (scrape_real_time_lemma Hsi w o Hw Hr) as (S & o' & Hr' & Hc & _).
+  exists (vals S). congruence.
+Qed.
+End Thm.
+
+Section Thm2.
+Variables (progs : list (list hop)) (sched : list Z).
+Let c := run_sched GM (init_config GM (hinit bnds) progs) sched.
+
+Lemma all_done_none (c0 : config GM) : all_done GM c0 = true -> forall i t, nth_error (thr c0) i = Some t -> t_cur t = None.
+Proof.
+  unfold all_done. rewrite forallb_forall. intros H i t Hi. specialize (H t (nth_error_In _ _ Hi)).
+  destruct (t_cur t); [discriminate|reflexivity].
+Qed.
+
+(* T3 (second half): once every call has returned, the hot set holds exactly the completed observations,
+   the cold set is empty and the mutex is free: no Write lost or duplicated anything *)
+Lemma quiescent_total_lemma : all_done GM c = true ->
+  let h := sh c in
+  let obs := filter kobs (Conc.hist c) in
+  mtx h = false /\ tickets h = Z.of_nat (length obs) /\
+  s_cnt (hget h (hot h)) = Z.of_nat (length obs) /\ SumOf (vals obs) (s_sum (hget h (hot h))) /\
+  s_cnt (hget h (negb (hot h))) = 0.
+Proof.
+  intros Hd. destruct (Inv_reachable progs sched) as [g (HT & HS & HH)]. fold c in HT, HS, HH.
+  pose proof (all_done_none c Hd) as Hn.
+  assert (HZ : forall t, In t (thr c) -> tpc t = None).
+  { intros t Ht. apply In_nth_error in Ht. destruct Ht as [i Hi]. unfold tpc. rewrite (Hn i t Hi). reflexivity. }
+  assert (HA : forall b, TA b (thr c) = 0).
+  { intros b. apply zsum_all_zero. intros t Ht. rewrite (HZ t Ht). reflexivity. }
+  assert (HSS : forall b, TS b (thr c) = []).
+  { intros b. apply concat_all_nil. intros t Ht. rewrite (HZ t Ht). reflexivity. }
+  pose proof (i_own _ _ _ _ _ HT) as Hown. destruct (gown g) as [j|].
+  { destruct Hown as (_ & t & o & pc & inv & Hj & Hc & _). rewrite (Hn j t Hj) in Hc. discriminate. }
+  destruct Hown as [Hm Hph]. cbn zeta.
+  pose proof (i_free _ _ _ HS Hph) as Hfree.
+  pose proof (i_total _ _ _ _ HH) as TOT.
+  pose proof (i_tick _ _ _ HS) as TK. pose proof (i_cnth _ _ _ HS) as CH. pose proof (i_cntc _ _ _ HS) as CC.
+  pose proof (i_sumh _ _ _ HS) as SH.
+  rewrite Hph in *. cbn [pmc pzc pms] in *. rewrite !HA in TK. rewrite HSS in SH. rewrite Hfree in CC.
+  assert (Hlen : Z.of_nat (length (filter kobs (Conc.hist c))) = zlen (gD g (hot (sh c)))).
+  { rewrite (Permutation_length TOT), app_length. unfold zlen. destruct (hot (sh c)); cbn [negb gD] in *; rewrite Hfree; cbn [length]; lia. }
+  assert (Hperm : Permutation (filter kobs (Conc.hist c)) (gD g (hot (sh c)))).
+  { rewrite TOT. destruct (hot (sh c)); cbn [negb gD] in *; rewrite Hfree; rewrite ?app_nil_r; reflexivity. }
+  psplit; auto.
+  - rewrite Hlen, TK. unfold zlen. destruct (hot (sh c)); cbn [negb gD] in *; rewrite Hfree; cbn [length]; lia.
+  - rewrite Hlen, CH. lia.
+  - unfold vals in *. rewrite Hperm. cbn [app] in SH. rewrite app_nil_r in SH. exact SH.
+Qed.
+
+(* T4: a configuration with an unfinished call always has an enabled thread: the only blocking step is
+   Mutex.Lock, and whenever the mutex is held its holder exists and is enabled *)
+Lemma sched_step_enabled (c0 : config GM) i t o pc inv :
+  nth_error (thr c0) i = Some t -> t_cur t = Some (o, pc, inv) -> stp (sh c0) pc <> None ->
+  sched_step GM c0 (Z.of_nat i) <> None.
+Proof.
+  intros Hi Hc Hs. unfold sched_step. rewrite Nat2Z.id, Hi, Hc.
+  change (step GM (sh c0) pc) with (stp (sh c0) pc).
+  destruct (stp (sh c0) pc) as [[s' [l'|r]]|]; [discriminate| |congruence].
+  destruct (advance GM _ _ _ _). discriminate.
+Qed.
+
+Lemma write_no_deadlock_lemma : all_done GM c = false -> exists tid, sched_step GM c tid <> None.
+Proof.
+  intros Hd. destruct (Inv_reachable progs sched) as [g (HT & HS & HH)]. fold c in HT, HS, HH.
+  assert (Hex : exists i t o pc inv, nth_error (thr c) i = Some t /\ t_cur t = Some (o, pc, inv)).
+  { unfold all_done in Hd. destruct (forallb _ (thr c)) eqn:E; [discriminate|].
+    assert (Hx : exists t, In t (thr c) /\ t_cur t <> None).
+    { clear -E. induction (thr c) as [|a r IH]; cbn [forallb] in E; [discriminate|].
+      destruct (t_cur a) eqn:Ea; [exists a; split; [left; reflexivity|congruence]|].
+      cbn [andb] in E. destruct (IH E) as (t & Ht & Hn). exists t. split; [right; assumption|assumption]. }
+    destruct Hx as (t & Ht & Hn). apply In_nth_error in Ht. destruct Ht as [i Hi].
+    destruct (t_cur t) as [[[o pc] inv]|] eqn:Ec; [|congruence]. exists i, t, o, pc, inv. auto. }
+  destruct Hex as (i & t & o & pc & inv & Hi & Hc).
+  destruct (stp (sh c) pc) eqn:Es.
+  - exists (Z.of_nat i). eapply sched_step_enabled; eauto. congruence.
+  - destruct (enabled_H _ _ Es) as [Hpc Hm]. pose proof (i_own _ _ _ _ _ HT) as Hown.
+    destruct (gown g) as [j|]; [|destruct Hown; congruence].
+    destruct Hown as (_ & tj & oj & pcj & invj & Hj & Hcj & Hh).
+    exists (Z.of_nat j). eapply sched_step_enabled; eauto. intros En.
+    destruct (enabled_H _ _ En) as [Hw _]. rewrite Hw in Hh. discriminate.
+Qed.
+
+(* the collector's spin loop exits as soon as the observers that took a ticket for the cold set before the
+   flip have finished (they are never blocked; that they are eventually scheduled is the fairness assumption) *)
+Lemma spin_exits_when_drained_lemma : forall i t o pc count cold inv,
+  nth_error (thr c) i = Some t -> t_cur t = Some (o, pc, inv) -> vw pc = wCool count cold ->
+  (forall j tj oj pcj invj, nth_error (thr c) j = Some tj -> t_cur tj = Some (oj, pcj, invj) ->
+     match vw pcj with oBucket _ b _ | oSumLoad _ b | oSumCas _ b _ | oCount b => b <> cold | _ => True end) ->
+  s_cnt (hget (sh c) cold) = count.
+Proof.
+  intros i t o pc count cold inv Hi Hc Hvw Hnone.
+  destruct (Inv_reachable progs sched) as [g (HT & HS & HH)]. fold c in HT, HS, HH.
+  pose proof (i_thr _ _ _ _ _ HT i t Hi) as Ht. unfold tinv in Ht. rewrite Hc in Ht. destruct Ht as [Hp _].
+  rewrite Hvw in Hp. cbn [pcinv] in Hp. destruct Hp as (_ & Hph & ->).
+  assert (HA : TA (negb (hot (sh c))) (thr c) = 0).
+  { apply zsum_all_zero. intros tj Hj. apply In_nth_error in Hj. destruct Hj as [j Hj]. unfold tpc.
+    destruct (t_cur tj) as [[[oj pcj] invj]|] eqn:Ecj; [|reflexivity]. specialize (Hnone j tj oj pcj invj Hj Ecj).
+    destruct (vw pcj); cbn [cA]; try reflexivity; destruct (Bool.eqb_spec (negb (hot (sh c))) b); congruence. }
+  rewrite (i_cntc _ _ _ HS), Hph. cbn [pzc]. rewrite (i_cool _ _ _ HS _ Hph), HA. lia.
+Qed.
+End Thm2.
+
+End Hist.
+
+(* implicit section parameters, so that the scripts below read as inside the section *)
+Arguments hcall {L} {st} {stp} {lab}.
+Arguments kval {L} {st} {stp} {lab}.
+Arguments kobs {L} {st} {stp} {lab}.
+Arguments vals {L} {st} {stp} {lab}.
+Arguments bix bnds.
+Arguments cnteq bnds {L} {st} {stp} {lab}.
+Arguments cntlt bnds {L} {st} {stp} {lab}.
+Arguments ghost {L} {st} {stp} {lab}.
+Arguments gD {L} {st} {stp} {lab}.
+Arguments tpc {L} {st} {stp} {lab} vw.
+Arguments cB bnds.
+Arguments TA {L} {st} {stp} {lab} vw.
+Arguments TB bnds {L} {st} {stp} {lab} vw.
+Arguments TS {L} {st} {stp} {lab} vw.
+Arguments out_ok bnds {L} {st} {stp} {lab}.
+Arguments pcinv bnds {L} {st} {stp} {lab}.
+Arguments tinv bnds {L} {st} {stp} {lab} vw.
+Arguments wr_ok bnds {L} {st} {stp} {lab}.
+Arguments base {L} {st} {stp} {lab}.
+Arguments InvT bnds {L} {st} {stp} {lab} vw.
+Arguments InvS bnds {L} {st} {stp} {lab} vw.
+Arguments InvH bnds {L} {st} {stp} {lab}.
+Arguments Inv3 bnds {L} {st} {stp} {lab} vw.
+Arguments Inv bnds {L} {st} {stp} {lab} vw.
+Arguments cnteq_app {bnds L st stp lab}.
+Arguments cnteq_nil {bnds L st stp lab}.
+Arguments cnteq_one {bnds L st stp lab}.
+Arguments cntlt_S {bnds L st stp lab}.
+Arguments cntlt_0 {bnds L st stp lab}.
+Arguments vals_app {L st stp lab}.
+Arguments cA_nonneg {L st}.
+Arguments TA_mem {L st stp lab vw}.
+Arguments TA_zero {bnds L st stp lab vw}.
+Arguments TA_set {L st stp lab vw}.
+Arguments TB_set {bnds L st stp lab vw}.
+Arguments TS_set {L st stp lab vw}.
+Arguments TS_same {L st stp lab vw}.
+Arguments tinv_mono {bnds L st stp lab vw}.
+Arguments pcinv_holds {bnds L st stp lab}.
+Arguments pcinv_nohold {bnds L st stp lab}.
+Arguments tinv_other {bnds L st stp lab vw}.
+Arguments pcinv_frame {bnds L st stp lab}.
+Arguments InvH_time {bnds L st stp lab}.
+Arguments base_eq {L st stp lab}.
+Arguments InvH_ghost {bnds L st stp lab}.
+Arguments InvS_T {bnds L st stp lab vw}.
+Arguments T_same {bnds L st stp lab vw}.
+Arguments InvT_obs {bnds L st stp lab vw}.
+Arguments InvT_hold {bnds L st stp lab vw}.
+Arguments set_ph {L} {st} {stp} {lab}.
+Arguments add_D {L} {st} {stp} {lab}.
+Arguments unlock_g {L} {st} {stp} {lab}.
+Arguments gD_set_ph {L st stp lab}.
+Arguments holds_contrib {bnds}.
+Arguments step_hold {bnds L st stp lab vw}.
+Arguments step_quiet {bnds L st stp lab vw}.
+Arguments T_step {bnds L st stp lab vw}.
+Arguments step_obs {bnds L st stp lab vw}.
+Arguments cooled_facts {bnds L st stp lab vw}.
+Arguments gD_add_same {L st stp lab}.
+Arguments gD_add_other {L st stp lab}.
+Arguments base_add_incl {L st stp lab}.
+Arguments wr_ok_snoc {bnds L st stp lab}.
+Arguments gW_in_hist {bnds L st stp lab}.
+Arguments InvH_obs {bnds L st stp lab}.
+Arguments tinv_none {bnds L st stp lab vw}.
+Arguments InvH_unlock {bnds L st stp lab}.
+Arguments ginv_le {bnds L st stp lab vw}.
+Arguments gstart_inl {L st stp lab vw}.
+Arguments fresh_tpc {bnds L st stp lab vw}.
+Arguments fresh_tinv {bnds L st stp lab vw}.
+Arguments g0 {L} {st} {stp} {lab}.
+Arguments fresh_T0 {bnds L st stp lab vw}.
+Arguments Inv_init {bnds L st stp lab vw}.
+Arguments Inv_reachable {bnds L st stp lab vw}.
+Arguments snapshot_of bnds {L} {st} {stp} {lab}.
+Arguments cum_le {bnds L st stp lab}.
+Arguments out_ok_consistent {bnds L st stp lab}.
+Arguments wr_ok_snapshot {bnds L st stp lab}.
+Arguments scrapes_monotone_lemma {bnds L st stp lab vw}.
+Arguments scrape_real_time_lemma {bnds L st stp lab vw}.
+Arguments scrape_consistent_lemma {bnds L st stp lab vw}.
+Arguments all_done_none {L st stp lab}.
+Arguments quiescent_total_lemma {bnds L st stp lab vw}.
+Arguments sched_step_enabled {L st stp lab}.
+Arguments write_no_deadlock_lemma {bnds L st stp lab vw}.
+Arguments spin_exits_when_drained_lemma {bnds L st stp lab vw}.
+Arguments i_thr {bnds L st stp lab vw}.
+Arguments i_own {bnds L st stp lab vw}.
+Arguments i_bnds {bnds L st stp lab vw}.
+Arguments i_tick {bnds L st stp lab vw}.
+Arguments i_cnth {bnds L st stp lab vw}.
+Arguments i_cntc {bnds L st stp lab vw}.
+Arguments i_bkh {bnds L st stp lab vw}.
+Arguments i_bkc {bnds L st stp lab vw}.
+Arguments i_sumh {bnds L st stp lab vw}.
+Arguments i_sumc {bnds L st stp lab vw}.
+Arguments i_zero {bnds L st stp lab vw}.
+Arguments i_free {bnds L st stp lab vw}.
+Arguments i_cooled {bnds L st stp lab vw}.
+Arguments i_cool {bnds L st stp lab vw}.
+Arguments i_time {bnds L st stp lab}.
+Arguments i_total {bnds L st stp lab}.
+Arguments i_wr {bnds L st stp lab}.
+Arguments i_wrok {bnds L st stp lab}.
+Arguments i_mono {bnds L st stp lab}.
+Arguments i_rt {bnds L st stp lab}.
+Arguments i_nodup {bnds L st stp lab}.
+Arguments mkG {L} {st} {stp} {lab}.
+Arguments gD0 {L} {st} {stp} {lab}.
+Arguments gD1 {L} {st} {stp} {lab}.
+Arguments gW {L} {st} {stp} {lab}.
+Arguments gown {L} {st} {stp} {lab}.
+Arguments ginv {L} {st} {stp} {lab}.
+Arguments gph {L} {st} {stp} {lab}.
+Arguments mkInvT {bnds L st stp lab vw}.
+Arguments mkInvS {bnds L st stp lab vw}.
+Arguments mkInvH {bnds L st stp lab}.
+
+(* ====================================================================== *)
+(* 6b. the histogram machine preserves the invariant                       *)
+(* ====================================================================== *)
+Ltac hold_step Hph :=
+  eapply step_hold; eauto;
+  try solve [reflexivity | apply hot_hput | apply mtx_hput | cbn [set_ph gph]; rewrite Hph; reflexivity].
+Ltac simS := cbn [unlock_g add_D negb hget hput hot tickets set0 set1 mtx h_bnds s_sum s_cnt s_bk s_zero gD set_ph gD0 gD1 gph gW gown ginv
+                    pmc pzc pms pzs pmb pzb PhM0 cooled flipped].
+Ltac simSall := cbn [unlock_g add_D negb hget hput hot tickets set0 set1 mtx h_bnds s_sum s_cnt s_bk s_zero gD set_ph gD0 gD1 gph gW gown ginv
+                    pmc pzc pms pzs pmb pzb PhM0 cooled flipped] in *.
+Ltac prepS HS Hph h :=
+  destruct HS as [B1 TK CH CC BH BC SH SC ZR FR CD CL];
+  pose proof (ZR true) as [ZR1 ZL1]; pose proof (ZR false) as [ZR0 ZL0]; clear ZR;
+  rewrite Hph in *; destruct h as [bn hb tk s0 s1 mx]; cbn [hot] in *.
+Ltac prepSc HS Hph h :=
+  destruct (cooled_facts _ _ _ HS) as (A0 & B0 & S0); [rewrite Hph; reflexivity|]; prepS HS Hph h.
+Ltac triv :=
+  try assumption; try lia; try (intros; discriminate); try (intros [|]; simS; rewrite ?upd_nth_length; split; first [lia | assumption]; fail); try (intros; auto; fail);
+  try (let j := fresh in let Hj := fresh in intros j Hj; exfalso; cbn [length] in Hj; lia).
+Ltac bcases :=
+  repeat match goal with
+  | |- context [Nat.ltb ?a ?b] => destruct (Nat.ltb_spec a b)
+  | |- context [Nat.eqb ?a ?b] => destruct (Nat.eqb_spec a b)
+  | H : context [Nat.ltb ?a ?b] |- _ => destruct (Nat.ltb_spec a b)
+  | H : context [Nat.eqb ?a ?b] |- _ => destruct (Nat.eqb_spec a b)
+  end; cbn [andb orb] in *; subst; try lia.
+Ltac bk BH := let j := fresh "j" in let Hj := fresh "Hj" in
+  intros j Hj; rewrite ?nthZ_upd_nth; specialize (BH j Hj); try match goal with Hz : forall j : nat, TB _ j _ = 0 |- _ => rewrite ?Hz in * end; bcases.
+Ltac prepO HS h ES :=
+  destruct HS as [B1 TK CH CC BH BC SH SC ZR FR CD CL];
+  pose proof (ZR true) as [ZR1 ZL1]; pose proof (ZR false) as [ZR0 ZL0]; clear ZR;
+  pose proof (ES true) as ES1; pose proof (ES false) as ES0;
+  destruct h as [bn hb tk s0 s1 mx]; cbn [hot] in *.
+Ltac bko BH BC EB := let j := fresh "j" in let Hj := fresh "Hj" in
+  intros j Hj; rewrite ?nthZ_upd_nth, ?EB; cbn [cB Bool.eqb andb val]; unfold bix in *;
+  specialize (BH j Hj); specialize (BC j Hj); bcases.
+Ltac hold_same g := exists g; eapply step_hold; eauto; try reflexivity.
+
+Notation hvw := (fun x : hpc => x).
+Lemma hst_vw : forall o, exists l, hstart o = inl l /\ hvw l = match o with HObserve v => oTicket v | HWrite => wLock end.
+Proof. intros [v|]; eexists; split; reflexivity. Qed.
+
+Lemma hstep_enabled h pc : pc <> wLock \/ mtx h = false -> hstep h pc <> None.
+Proof.
+  intros H. destruct pc; cbn [hstep]; try discriminate;
+    try (match goal with |- context [if ?x then _ else _] => destruct x eqn:E end; try discriminate).
+  destruct H as [H|H]; congruence.
+Qed.
+
+
+Section HistStep.
+Variable bnds : list f64.
+Notation n := (length bnds).
+Notation HM := (mkMachine hsh hpc hop hret hstart hstep hlabel).   (* hist_machine, unfolded *)
+
+Lemma hist_Inv_step c g tid c' : Inv bnds hvw c g -> sched_step HM c tid = Some c' -> exists g', Inv bnds hvw c' g'.
+Proof.
+  intros HI Hstep. pose proof hst_vw as Hstvw.
+  destruct (sched_step_cases HM (gstart_inl hst_vw) _ _ _ Hstep) as (t & o & pc & inv & h' & nxt & Ht & Hc & Hs & Hsh & Hnow & Hrest).
   set (i := Z.to_nat tid) in *. clearbody i. clear Hstep.
   destruct c as [h T nw hs tr]; destruct c' as [h'' T' nw' hs' tr']; unfold Inv in *; cbn [sh thr now Conc.hist] in *.
   subst h'' nw'. change (step HM h pc) with (hstep h pc) in Hs.
@@ -911,7 +1288,7 @@ Proof.
     exists g.
     destruct (Z.ltb_spec (find_bucket bnds v) (Z.of_nat n)) as [Hk|Hk];
       inversion Hs; subst h' nxt; clear Hs; destruct Hrest as [-> ->].
-    + destruct (T_step T i t _ _ _ (Some (HObserve v, oBucket v (hot h) (find_bucket bnds v))) Ht Hc
+    + destruct (T_step (bnds:=bnds) (vw:=hvw) T i t _ _ _ (Some (HObserve v, oBucket v (hot h) (find_bucket bnds v))) Ht Hc
                 (mkThread HM (t_todo t) (Some (HObserve v, oBucket v (hot h) (find_bucket bnds v), inv)) (t_idx t)) eq_refl) as (EA & EB & ES).
       eapply step_obs; eauto; try solve [reflexivity | cbn [pcinv]; auto].
       set (T' := set_nth T i _) in *. clearbody T'.
@@ -919,7 +1296,7 @@ Proof.
       destruct hb; simSall; cbn [cS Bool.eqb app val] in ES1, ES0;
         constructor; simS; rewrite ?EA, ?EB; cbn [cA cB cS Bool.eqb andb val]; triv;
         try (bko BH BC EB; fail); try (destruct (pzs (gph g))); rewrite ?ES1, ?ES0; triv.
-    + destruct (T_step T i t _ _ _ (Some (HObserve v, oSumLoad v (hot h))) Ht Hc
+    + destruct (T_step (bnds:=bnds) (vw:=hvw) T i t _ _ _ (Some (HObserve v, oSumLoad v (hot h))) Ht Hc
                 (mkThread HM (t_todo t) (Some (HObserve v, oSumLoad v (hot h), inv)) (t_idx t)) eq_refl) as (EA & EB & ES).
       eapply step_obs; eauto; try solve [reflexivity | cbn [pcinv]; auto].
       set (T' := set_nth T i _) in *. clearbody T'.
@@ -931,7 +1308,7 @@ Proof.
     inversion Hs; subst h' nxt; clear Hs. destruct Hrest as [-> ->].
     cbn [pcinv] in Hpc. destruct Hpc as (-> & -> & Hk).
     exists g.
-    destruct (T_step T i t _ _ _ (Some (HObserve v, oSumLoad v b)) Ht Hc
+    destruct (T_step (bnds:=bnds) (vw:=hvw) T i t _ _ _ (Some (HObserve v, oSumLoad v b)) Ht Hc
                 (mkThread HM (t_todo t) (Some (HObserve v, oSumLoad v b, inv)) (t_idx t)) eq_refl) as (EA & EB & ES).
     eapply step_obs; eauto; try solve [reflexivity | apply hot_hput | apply mtx_hput].
     set (T' := set_nth T i _) in *. clearbody T'.
@@ -945,9 +1322,9 @@ Proof.
     cbn [pcinv] in Hpc. subst o.
     destruct (fbits_eq _ _) eqn:Ecas; inversion Hs; subst h' nxt; clear Hs; destruct Hrest as [-> ->]; exists g.
     + apply fbits_eq_true in Ecas. subst old.
-      destruct (T_step T i t _ _ _ (Some (HObserve v, oCount b)) Ht Hc
+      destruct (T_step (bnds:=bnds) (vw:=hvw) T i t _ _ _ (Some (HObserve v, oCount b)) Ht Hc
                 (mkThread HM (t_todo t) (Some (HObserve v, oCount b, inv)) (t_idx t)) eq_refl) as (EA & EB & ES).
-      pose proof (TA_mem b T i t _ _ _ Ht Hc) as HA1. cbn [cA] in HA1. rewrite Bool.eqb_reflx in HA1.
+      pose proof (TA_mem (vw:=hvw) b T i t _ _ _ Ht Hc) as HA1. cbn [cA] in HA1. rewrite Bool.eqb_reflx in HA1.
       eapply step_obs; eauto; try solve [reflexivity | apply hot_hput | apply mtx_hput].
       set (T' := set_nth T i _) in *. clearbody T'.
       prepO HS h ES.
@@ -964,9 +1341,9 @@ Proof.
     cbn [pcinv] in Hpc.
     set (k := mkCall tid (t_idx t) o HUnit inv (nw + 1)).
     exists (add_D g b k).
-    destruct (fresh_tpc _ _ Hfr) as (FA & FB & FS).
-    destruct (T_step T i t _ _ _ (tpc t') Ht Hc t' eq_refl) as (EA & EB & ES).
-    pose proof (TA_mem b T i t _ _ _ Ht Hc) as HA1. cbn [cA] in HA1. rewrite Bool.eqb_reflx in HA1.
+    destruct (fresh_tpc (bnds:=bnds) hst_vw _ _ Hfr) as (FA & FB & FS).
+    destruct (T_step (bnds:=bnds) (vw:=hvw) T i t _ _ _ (tpc hvw t') Ht Hc t' eq_refl) as (EA & EB & ES).
+    pose proof (TA_mem (vw:=hvw) b T i t _ _ _ Ht Hc) as HA1. cbn [cA] in HA1. rewrite Bool.eqb_reflx in HA1.
     assert (Hcold : b = negb (hot h) -> cooled (gph g) = false).
     { intros ->. destruct (cooled (gph g)) eqn:E; [|reflexivity]. pose proof (i_cooled _ _ _ HS E). lia. }
     assert (Hb : b = hot h \/ b = negb (hot h)) by (destruct b, (hot h); auto).
@@ -974,7 +1351,7 @@ Proof.
     + rewrite hot_hput, mtx_hput. eapply InvT_obs; eauto; try reflexivity.
       * intros o1 pc1 inv1 H1. rewrite Hc in H1. inversion H1; subst. reflexivity.
       * intros Hcd. destruct Hb as [->| ->]; [apply gD_add_other|]. rewrite Hcold in Hcd; [discriminate|reflexivity].
-      * apply fresh_tinv. assumption.
+      * apply (fresh_tinv hst_vw). assumption.
     + set (T' := set_nth T i _) in *. clearbody T'.
       prepO HS h ES. rewrite FS in ES1, ES0.
       destruct hb, b; simSall; cbn [cS Bool.eqb app val] in ES1, ES0.
@@ -1003,7 +1380,7 @@ Proof.
         -- apply tinv_mono with nw; [lia|]. eapply tinv_none; [exact Eown|]. apply (i_thr _ _ _ _ _ HT). exact Hj.
       * cbn [gown]. split; [reflexivity|]. eexists _, HWrite, wFlip, inv.
         rewrite (nth_error_set_nth_eq _ _ _ _ Ht). cbn [t_cur holds]. auto.
-    + destruct (T_same T i t (mkThread HM (t_todo t) (Some (HWrite, wFlip, inv)) (t_idx t)) Ht) as (HA & HB & HS2);
+    + destruct (T_same (bnds:=bnds) (vw:=hvw) T i t (mkThread HM (t_todo t) (Some (HWrite, wFlip, inv)) (t_idx t)) Ht) as (HA & HB & HS2);
         try (intros; unfold tpc; rewrite Hc; reflexivity).
       eapply InvS_T; eauto.
       destruct HS as [B1 TK CH CC BH BC SH SC ZR FR CD CL]. rewrite Hph in *.
@@ -1025,7 +1402,7 @@ Proof.
     unfold Inv3. cbn [hot mtx]. split; [|split].
     + eapply InvT_hold; eauto; try reflexivity.
       cbn [pcinv set_ph gown ginv gph]. rewrite negb_involutive. auto.
-    + destruct (T_same T i t (mkThread HM (t_todo t) (Some (HWrite, wCool (tickets h) (hot h), inv)) (t_idx t)) Ht) as (HA & HB & HS2);
+    + destruct (T_same (bnds:=bnds) (vw:=hvw) T i t (mkThread HM (t_todo t) (Some (HWrite, wCool (tickets h) (hot h), inv)) (t_idx t)) Ht) as (HA & HB & HS2);
         try (intros; unfold tpc; rewrite Hc; reflexivity).
       eapply InvS_T; eauto.
       prepS HS Hph h. specialize (FR eq_refl). specialize (CD eq_refl).
@@ -1042,7 +1419,7 @@ Proof.
     destruct (Z.eqb_spec (s_cnt (hget h (negb (hot h)))) count) as [Ecnt|Ecnt];
       inversion Hs; subst h' nxt; clear Hs; destruct Hrest as [-> ->].
     + pose proof (i_cool _ _ _ HS _ Hph) as CL0. pose proof (i_cntc _ _ _ HS) as CC0. rewrite Hph in CC0. cbn [pzc] in CC0.
-      assert (HA0 : TA (negb (hot h)) T = 0) by lia.
+      assert (HA0 : TA hvw (negb (hot h)) T = 0) by lia.
       exists (set_ph g PhM0). hold_step Hph.
       * cbn [pcinv]. rewrite gD_set_ph. cbn [set_ph gown ginv gph]. psplit; auto. lia.
       * prepS HS Hph h. destruct hb; simSall; constructor; simS; triv.
@@ -1063,13 +1440,13 @@ Proof.
   - (* wReadBk *)
     cbn [pcinv] in Hpc. destruct Hpc as ((-> & Hg & Hgi) & Hph & -> & -> & Hsum & Hi & -> & ->).
     assert (Hn : length (h_bnds h) = n) by (rewrite (i_bnds _ _ _ HS); reflexivity).
-    assert (Hacc : cntlt i0 (gD g (negb (hot h))) + nthZ (s_bk (hget h (negb (hot h)))) i0 = cntlt (S i0) (gD g (negb (hot h)))).
+    assert (Hacc : cntlt bnds i0 (gD g (negb (hot h))) + nthZ (s_bk (hget h (negb (hot h)))) i0 = cntlt bnds (S i0) (gD g (negb (hot h)))).
     { rewrite (i_bkc _ _ _ HS _ Hi). rewrite Hph. cbn [pzb PhM0].
       destruct (cooled_facts _ _ _ HS) as (_ & E & _); [rewrite Hph; reflexivity|]. rewrite E, cntlt_S.
       cbn [Nat.ltb Nat.leb]. lia. }
     rewrite Hacc in Hs.
-    assert (Hcum : map (fun j => cntlt (S j) (gD g (negb (hot h)))) (seq 0 i0) ++ [cntlt (S i0) (gD g (negb (hot h)))]
-                   = map (fun j => cntlt (S j) (gD g (negb (hot h)))) (seq 0 (S i0))).
+    assert (Hcum : map (fun j => cntlt bnds (S j) (gD g (negb (hot h)))) (seq 0 i0) ++ [cntlt bnds (S i0) (gD g (negb (hot h)))]
+                   = map (fun j => cntlt bnds (S j) (gD g (negb (hot h)))) (seq 0 (S i0))).
     { rewrite seq_S, map_app. reflexivity. }
     rewrite Hcum, Hn in Hs.
     destruct (Nat.ltb_spec (S i0) n) as [Hlt|Hge]; inversion Hs; subst h' nxt; clear Hs; destruct Hrest as [-> ->]; hold_same g;
@@ -1163,14 +1540,14 @@ Proof.
     cbn [pcinv] in Hpc. destruct Hpc as ((-> & Hg & Hgi) & Hph & Hout).
     set (w := @mkCall HM tid (t_idx t) HWrite (HOut o0) inv (nw + 1)).
     exists (unlock_g g (hot h) w).
-    destruct (fresh_tpc _ _ Hfr) as (FA & FB & FS).
+    destruct (fresh_tpc (bnds:=bnds) hst_vw _ _ Hfr) as (FA & FB & FS).
     unfold Inv3. cbn [hot mtx]. split; [|split].
     + constructor.
       * intros j tj Hj. apply nth_error_set_nth_inv in Hj. destruct Hj as [[-> ->]|[Hne Hj]].
-        -- apply fresh_tinv. assumption.
+        -- apply (fresh_tinv hst_vw). assumption.
         -- apply tinv_mono with nw; [lia|]. eapply tinv_other; eauto. apply (i_thr _ _ _ _ _ HT). exact Hj.
       * cbn [unlock_g gown gph]. auto.
-    + destruct (T_same T i t t' Ht) as (HA & HB & HS2);
+    + destruct (T_same (bnds:=bnds) (vw:=hvw) T i t t' Ht) as (HA & HB & HS2);
         try (intros; unfold tpc at 2; rewrite Hc; rewrite ?FA, ?FB, ?FS; reflexivity).
       eapply InvS_T; eauto.
       prepSc HS Hph h.
@@ -1186,12 +1563,239 @@ Proof.
       * lia.
 Qed.
 
-Lemma Inv_reachable progs sched :
-  exists g, Inv (run_sched HM (init_config HM (hinit bnds) progs) sched) g.
+
+End HistStep.
+
+(* ====================================================================== *)
+(* 7. the summary without objectives: viewed as a histogram without buckets *)
+(* ====================================================================== *)
+Definition svw (pc : spc) : hpc :=
+  match pc with
+  | soTicket v => oTicket v
+  | soSumLoad v b => oSumLoad v b
+  | soSumCas v b old => oSumCas v b old
+  | soCount b => oCount b
+  | swLock => wLock
+  | swFlip => wFlip
+  | swCool count cold => wCool count cold
+  | swSpin count cold => wSpin count cold
+  | swReadSum count cold => wReadSum count cold
+  | smAddCnt o cold => mAddCnt o cold (ho_count o)          (* adds the count it reported *)
+  | smStoreCnt o cold => mStoreCnt o cold
+  | smSumLoad o cold => mSumLoad o cold (ho_sum o)          (* adds the sum it reported *)
+  | smSumCas o cold old => mSumCas o cold (ho_sum o) old
+  | smStoreSum o cold => mStoreSum o cold
+  | swUnlock o => wUnlock o
+  end.
+
+Lemma sst_vw : forall o, exists l, sstart o = inl l /\ svw l = match o with HObserve v => oTicket v | HWrite => wLock end.
+Proof. intros [v|]; eexists; split; reflexivity. Qed.
+
+Lemma sstep_enabled h pc : sstep h pc = None -> svw pc = wLock /\ mtx h = true.
 Proof.
-  apply (run_sched_ind HM (fun c => exists g, Inv c g)).
-  - intros c tid c' [g Hg] Hs. eapply Inv_step; eauto.
-  - exists g0. apply Inv_init.
+  destruct pc; cbn [sstep]; try discriminate;
+    try (match goal with |- context [if ?x then _ else _] => destruct x eqn:E end; try discriminate).
+  auto.
 Qed.
 
-End Hist.
+Section SummStep.
+Notation bnds := (@nil f64).
+Notation n := (length bnds).
+Notation SM := (mkMachine hsh spc hop hret sstart sstep slabel).   (* summ_machine, unfolded *)
+
+Lemma summ_Inv_step c g tid c' : Inv bnds svw c g -> sched_step SM c tid = Some c' -> exists g', Inv bnds svw c' g'.
+Proof.
+  intros HI Hstep. pose proof sst_vw as Hstvw.
+  destruct (sched_step_cases SM (gstart_inl sst_vw) _ _ _ Hstep) as (t & o & pc & inv & h' & nxt & Ht & Hc & Hs & Hsh & Hnow & Hrest).
+  set (i := Z.to_nat tid) in *. clearbody i. clear Hstep.
+  destruct c as [h T nw hs tr]; destruct c' as [h'' T' nw' hs' tr']; unfold Inv in *; cbn [sh thr now Conc.hist] in *.
+  subst h'' nw'. change (step SM h pc) with (sstep h pc) in Hs.
+  pose proof HI as (HT & HS & HH).
+  pose proof (i_thr _ _ _ _ _ HT i t Ht) as Hi. unfold tinv in Hi. rewrite Hc in Hi. destruct Hi as [Hpc Hinv].
+  destruct pc; cbn [sstep] in Hs.
+  - (* soTicket *)
+    cbn [svw pcinv] in Hpc. subst o. exists g.
+    inversion Hs; subst h' nxt; clear Hs; destruct Hrest as [-> ->].
+  destruct (T_step (bnds:=bnds) (vw:=svw) T i t _ _ _ (Some (HObserve v, oSumLoad v (hot h))) Ht Hc
+              (mkThread SM (t_todo t) (Some (HObserve v, soSumLoad v (hot h), inv)) (t_idx t)) eq_refl) as (EA & EB & ES).
+    eapply step_obs; eauto; try solve [reflexivity | cbn [svw pcinv]; auto].
+    set (T' := set_nth T i _) in *. clearbody T'.
+    prepO HS h ES.
+    destruct hb; simSall; cbn [cS Bool.eqb app val] in ES1, ES0;
+      constructor; simS; rewrite ?EA, ?EB; cbn [cA cB cS Bool.eqb andb val]; triv;
+      try (bko BH BC EB; fail); try (destruct (pzs (gph g))); rewrite ?ES1, ?ES0; triv.
+  - (* soSumLoad *)
+    inversion Hs; subst; clear Hs. destruct Hrest as [-> ->]. exists g. eapply step_quiet; eauto.
+  - (* soSumCas *)
+    cbn [svw pcinv] in Hpc. subst o.
+    destruct (fbits_eq _ _) eqn:Ecas; inversion Hs; subst h' nxt; clear Hs; destruct Hrest as [-> ->]; exists g.
+    + apply fbits_eq_true in Ecas. subst old.
+      destruct (T_step (bnds:=bnds) (vw:=svw) T i t _ _ _ (Some (HObserve v, oCount b)) Ht Hc
+                (mkThread SM (t_todo t) (Some (HObserve v, soCount b, inv)) (t_idx t)) eq_refl) as (EA & EB & ES).
+      pose proof (TA_mem (vw:=svw) b T i t _ _ _ Ht Hc) as HA1. cbn [cA] in HA1. rewrite Bool.eqb_reflx in HA1.
+      eapply step_obs; eauto; try solve [reflexivity | apply hot_hput | apply mtx_hput].
+      set (T' := set_nth T i _) in *. clearbody T'.
+      prepO HS h ES.
+      destruct hb, b; simSall; cbn [cS Bool.eqb app val] in ES1, ES0;
+        constructor; simS; rewrite ?EA, ?EB; cbn [cA cB cS Bool.eqb andb val]; triv;
+        try (bko BH BC EB; fail).
+      all: try (destruct (pzs (gph g)) eqn:Epz;
+                [try assumption; exfalso; destruct (gph g); try discriminate Epz; specialize (CD eq_refl); lia|]).
+      all: rewrite ?ES1, ?ES0; try assumption.
+      all: eapply SO_perm; [|apply SumOf_snoc; eassumption]; perm.
+    + eapply step_quiet; eauto. reflexivity.
+  - (* soCount *)
+    inversion Hs; subst h' nxt; clear Hs. destruct Hrest as (t' & Hfr & -> & ->).
+    cbn [svw pcinv] in Hpc.
+    set (k := mkCall tid (t_idx t) o HUnit inv (nw + 1)).
+    exists (add_D g b k).
+    destruct (fresh_tpc (bnds:=bnds) sst_vw _ _ Hfr) as (FA & FB & FS).
+    destruct (T_step (bnds:=bnds) (vw:=svw) T i t _ _ _ (tpc svw t') Ht Hc t' eq_refl) as (EA & EB & ES).
+    pose proof (TA_mem (vw:=svw) b T i t _ _ _ Ht Hc) as HA1. cbn [cA] in HA1. rewrite Bool.eqb_reflx in HA1.
+    assert (Hcold : b = negb (hot h) -> cooled (gph g) = false).
+    { intros ->. destruct (cooled (gph g)) eqn:E; [|reflexivity]. pose proof (i_cooled _ _ _ HS E). lia. }
+    assert (Hb : b = hot h \/ b = negb (hot h)) by (destruct b, (hot h); auto).
+    split; [|split].
+    + rewrite hot_hput, mtx_hput. eapply InvT_obs; eauto; try reflexivity.
+      * intros o1 pc1 inv1 H1. rewrite Hc in H1. inversion H1; subst. reflexivity.
+      * intros Hcd. destruct Hb as [->| ->]; [apply gD_add_other|]. rewrite Hcold in Hcd; [discriminate|reflexivity].
+      * apply (fresh_tinv sst_vw). assumption.
+    + set (T' := set_nth T i _) in *. clearbody T'.
+      prepO HS h ES. rewrite FS in ES1, ES0.
+      destruct hb, b; simSall; cbn [cS Bool.eqb app val] in ES1, ES0.
+      all: try (specialize (Hcold eq_refl); destruct (gph g) eqn:Eph; try discriminate Hcold; simSall).
+      all: constructor; simS; try rewrite !Eph; simS; rewrite ?EA, ?EB, ?FA, ?FB; cbn [cA cB Bool.eqb andb];
+        rewrite ?zlen_app, ?zlen_one, ?vals_app; cbn [vals map]; change (kval k) with (val o); triv.
+      all: try (let j := fresh "j" in let Hj := fresh "Hj" in
+                intros j Hj; rewrite ?EB, ?FB, ?cnteq_app, ?cnteq_one; cbn [cB Bool.eqb andb]; change (kval k) with (val o);
+                specialize (BH j Hj); specialize (BC j Hj); bcases; fail).
+      all: try (destruct (pzs (gph g)); [assumption|]).
+      all: try rewrite <- ES1 in SH; try rewrite <- ES0 in SH; try rewrite <- ES1 in SC; try rewrite <- ES0 in SC.
+      all: first [assumption | eapply SO_perm; [|first [exact SH|exact SC]]; perm].
+    + rewrite hot_hput. apply InvH_obs; auto; try reflexivity.
+      * unfold k. cbn [c_inv c_res]. lia.
+      * eapply ginv_le; eauto.
+  - (* swLock *)
+    cbn [svw pcinv] in Hpc. subst o.
+    destruct (mtx h) eqn:Emtx; [discriminate Hs|]. inversion Hs; subst h' nxt; clear Hs. destruct Hrest as [-> ->].
+    pose proof (i_own _ _ _ _ _ HT) as Hown. destruct (gown g) as [j|] eqn:Eown; [destruct Hown; congruence|].
+    destruct Hown as [_ Hph].
+    exists (mkG (gD0 g) (gD1 g) (gW g) (Some i) inv Ph0).
+    unfold Inv3. cbn [hot mtx]. split; [|split].
+    + constructor.
+      * intros j tj Hj. apply nth_error_set_nth_inv in Hj. destruct Hj as [[-> ->]|[Hne Hj]].
+        -- unfold tinv. cbn [t_cur pcinv gown ginv gph]. psplit; auto. lia.
+        -- apply tinv_mono with nw; [lia|]. eapply tinv_none; [exact Eown|]. apply (i_thr _ _ _ _ _ HT). exact Hj.
+      * cbn [gown]. split; [reflexivity|]. eexists _, HWrite, swFlip, inv.
+        rewrite (nth_error_set_nth_eq _ _ _ _ Ht). cbn [t_cur holds]. auto.
+    + destruct (T_same (bnds:=bnds) (vw:=svw) T i t (mkThread SM (t_todo t) (Some (HWrite, swFlip, inv)) (t_idx t)) Ht) as (HA & HB & HS2);
+        try (intros; unfold tpc; rewrite Hc; reflexivity).
+      eapply InvS_T; eauto.
+      destruct HS as [B1 TK CH CC BH BC SH SC ZR FR CD CL]. rewrite Hph in *.
+      constructor; cbn [h_bnds hot tickets gD0 gD1 gph gD hget set0 set1] in *; auto.
+    + destruct HH as [TM TOT WR WOK MONO RT ND].
+      assert (Eb : base (mkG (gD0 g) (gD1 g) (gW g) (Some i) inv Ph0) (hot h) = base g (hot h))
+        by (apply base_eq; cbn [gD0 gD1 gph]; rewrite ?Hph; reflexivity).
+      constructor; rewrite ?Eb; cbn [gD0 gD1 gW gown ginv]; auto.
+      * intros k Hk. destruct (TM k Hk). split; [lia|assumption].
+      * intros _ k Hk Hob _. unfold base. rewrite Hph. cbn [flipped].
+        assert (Hin : In k (gD0 g ++ gD1 g)).
+        { eapply Permutation_in; [exact TOT|]. apply filter_In. auto. }
+        pose proof (i_free _ _ _ HS Hph) as Hfree.
+        apply in_app_or in Hin. destruct (hot h); cbn [negb gD] in *; rewrite Hfree in Hin; destruct Hin as [Hin|Hin]; auto; destruct Hin.
+  - (* swFlip *)
+    inversion Hs; subst h' nxt; clear Hs. destruct Hrest as [-> ->].
+    cbn [svw pcinv] in Hpc. destruct Hpc as ((-> & Hg & Hgi) & Hph).
+    exists (set_ph g (PhCool (tickets h))).
+    unfold Inv3. cbn [hot mtx]. split; [|split].
+    + eapply InvT_hold; eauto; try reflexivity.
+      cbn [pcinv set_ph gown ginv gph]. rewrite negb_involutive. auto.
+    + destruct (T_same (bnds:=bnds) (vw:=svw) T i t (mkThread SM (t_todo t) (Some (HWrite, swCool (tickets h) (hot h), inv)) (t_idx t)) Ht) as (HA & HB & HS2);
+        try (intros; unfold tpc; rewrite Hc; reflexivity).
+      eapply InvS_T; eauto.
+      prepS HS Hph h. specialize (FR eq_refl). specialize (CD eq_refl).
+      destruct hb; simSall; constructor; simS; rewrite ?FR in *; triv; try (bk BH; fail); try (bk BC; fail);
+        rewrite ?app_nil_r, ?zlen_nil in *; cbn [vals map app] in *; triv;
+        try (intros count Ecnt; inversion Ecnt; subst; lia).
+    + destruct HH as [TM TOT WR WOK MONO RT ND].
+      assert (Eb : base (set_ph g (PhCool (tickets h))) (negb (hot h)) = base g (hot h)).
+      { unfold base. cbn [set_ph gph flipped]. rewrite Hph, negb_involutive. reflexivity. }
+      constructor; rewrite ?Eb; cbn [set_ph gD0 gD1 gW gown ginv]; auto.
+      intros k Hk. destruct (TM k Hk). split; [lia|assumption].
+  - (* swCool *)
+    cbn [svw pcinv] in Hpc. destruct Hpc as ((-> & Hg & Hgi) & Hph & ->).
+    destruct (Z.eqb_spec (s_cnt (hget h (negb (hot h)))) count) as [Ecnt|Ecnt];
+      inversion Hs; subst h' nxt; clear Hs; destruct Hrest as [-> ->].
+    + pose proof (i_cool _ _ _ HS _ Hph) as CL0. pose proof (i_cntc _ _ _ HS) as CC0. rewrite Hph in CC0. cbn [pzc] in CC0.
+      assert (HA0 : TA svw (negb (hot h)) T = 0) by lia.
+      exists (set_ph g PhM0). hold_step Hph.
+      * cbn [svw pcinv]. rewrite gD_set_ph. cbn [set_ph gown ginv gph]. psplit; auto. lia.
+      * prepS HS Hph h. destruct hb; simSall; constructor; simS; triv.
+    + hold_same g. cbn [svw pcinv]. tauto.
+  - (* swSpin *)
+    inversion Hs; subst; clear Hs. destruct Hrest as [-> ->]. hold_same g.
+  - (* swReadSum *)
+    cbn [svw pcinv] in Hpc. destruct Hpc as ((-> & Hg & Hgi) & Hph & -> & ->).
+    pose proof (i_sumc _ _ _ HS) as SC. rewrite Hph in SC. cbn [pzs PhM0] in SC.
+    destruct (cooled_facts _ _ _ HS) as (_ & _ & E); [rewrite Hph; reflexivity|].
+    rewrite E, app_nil_r in SC.
+    inversion Hs; subst h' nxt; clear Hs; destruct Hrest as [-> ->]; hold_same g.
+    cbn [svw pcinv ho_count]. psplit; auto.
+    unfold out_ok. cbn [ho_count ho_sum ho_cum length seq map]. auto.
+  - (* smAddCnt *)
+    inversion Hs; subst; clear Hs. destruct Hrest as [-> ->].
+    cbn [svw pcinv] in Hpc. destruct Hpc as ((-> & Hg & Hgi) & Hph & -> & Hout & Hcnt). rewrite Hcnt in *.
+    exists (set_ph g (PhM true false false false 0 0)). hold_step Hph.
+    + cbn [svw pcinv]. rewrite gD_set_ph. cbn [set_ph gown ginv gph]. tauto.
+    + prepS HS Hph h. destruct hb; simSall; constructor; simS; triv.
+  - (* smStoreCnt *)
+    inversion Hs; subst; clear Hs. destruct Hrest as [-> ->].
+    cbn [svw pcinv] in Hpc. destruct Hpc as ((-> & Hg & Hgi) & Hph & -> & Hout).
+    exists (set_ph g (PhM true true false false 0 0)). hold_step Hph.
+    + cbn [svw pcinv]. rewrite gD_set_ph. cbn [set_ph gown ginv gph]. psplit; auto. apply Hout.
+    + prepS HS Hph h. destruct hb; simSall; constructor; simS; triv.
+  - (* smSumLoad *)
+    inversion Hs; subst; clear Hs. destruct Hrest as [-> ->]. hold_same g.
+  - (* smSumCas *)
+    cbn [svw pcinv] in Hpc. destruct Hpc as ((-> & Hg & Hgi) & Hph & -> & Hout & Hs0).
+    destruct (fbits_eq _ _) eqn:Ecas; inversion Hs; subst; clear Hs; destruct Hrest as [-> ->].
+    + apply fbits_eq_true in Ecas. subst old. set (s := ho_sum o0) in *.
+      exists (set_ph g (PhM true true true false 0 0)). hold_step Hph.
+      * cbn [svw pcinv]. rewrite gD_set_ph. cbn [set_ph gown ginv gph]. tauto.
+      * prepS HS Hph h. destruct hb; simSall; constructor; simS; triv.
+        all: rewrite app_nil_r in SH; rewrite app_assoc; apply SO_add; assumption.
+    + hold_same g. cbn [svw pcinv]. tauto.
+  - (* smStoreSum *)
+    inversion Hs; subst; clear Hs. destruct Hrest as [-> ->].
+    cbn [svw pcinv] in Hpc. destruct Hpc as ((-> & Hg & Hgi) & Hph & -> & Hout).
+    exists (set_ph g (PhM true true true true 0 0)). hold_step Hph.
+    + cbn [svw pcinv length]. rewrite gD_set_ph. cbn [set_ph gown ginv gph]. tauto.
+    + prepS HS Hph h. destruct hb; simSall; constructor; simS; triv.
+  - (* swUnlock *)
+    inversion Hs; subst h' nxt; clear Hs. destruct Hrest as (t' & Hfr & -> & ->).
+    cbn [svw pcinv] in Hpc. destruct Hpc as ((-> & Hg & Hgi) & Hph & Hout). cbn [length] in Hph.
+    set (w := @mkCall SM tid (t_idx t) HWrite (HOut o0) inv (nw + 1)).
+    exists (unlock_g g (hot h) w).
+    destruct (fresh_tpc (bnds:=bnds) sst_vw _ _ Hfr) as (FA & FB & FS).
+    unfold Inv3. cbn [hot mtx]. split; [|split].
+    + constructor.
+      * intros j tj Hj. apply nth_error_set_nth_inv in Hj. destruct Hj as [[-> ->]|[Hne Hj]].
+        -- apply (fresh_tinv sst_vw). assumption.
+        -- apply tinv_mono with nw; [lia|]. eapply tinv_other; eauto. apply (i_thr _ _ _ _ _ HT). exact Hj.
+      * cbn [unlock_g gown gph]. auto.
+    + destruct (T_same (bnds:=bnds) (vw:=svw) T i t t' Ht) as (HA & HB & HS2);
+        try (intros; unfold tpc at 2; rewrite Hc; rewrite ?FA, ?FB, ?FS; reflexivity).
+      eapply InvS_T; eauto.
+      prepSc HS Hph h.
+      destruct hb; simSall; constructor; simS; rewrite ?zlen_app, ?zlen_nil, ?vals_app in *; triv.
+      all: try (let j := fresh "j" in let Hj := fresh "Hj" in
+                intros j Hj; rewrite ?cnteq_app, ?cnteq_nil, ?B0; specialize (BH j Hj); specialize (BC j Hj);
+                rewrite ?B0 in *; bcases; fail).
+      all: rewrite ?S0; cbn [vals map app]; try (rewrite SC; constructor).
+      all: eapply SO_perm; [|exact SH]; perm.
+    + apply InvH_unlock with o0; auto; try reflexivity.
+      * rewrite Hph. reflexivity.
+      * congruence.
+      * lia.
+Qed.
+End SummStep.
